@@ -514,6 +514,9 @@ func run(c *Case) {
 			}
 		}
 	}
+	if c.Proto == "influx" {
+		influxFieldOrder(c)
+	}
 	c.NRows = countEntries(c)
 	c.TTLMulti = ttlMulti(c)
 	c.Coq = coqCase(c)
